@@ -163,7 +163,14 @@ func init() {
 			})
 		}
 		emit := func(xs []site) string {
-			sort.Slice(xs, func(i, j int) bool { return xs[i].pos < xs[j].pos })
+			// by file name and offset: raw token.Pos values depend on the order in which the files were parsed
+			sort.Slice(xs, func(i, j int) bool {
+				a, b := pr.fset.Position(xs[i].pos), pr.fset.Position(xs[j].pos)
+				if a.Filename != b.Filename {
+					return a.Filename < b.Filename
+				}
+				return a.Offset < b.Offset
+			})
 			ss := make([]string, len(xs))
 			for i, x := range xs {
 				ss[i] = x.text
